@@ -19,6 +19,7 @@ OpSpace ==
   \cup (IF "succeed" \in Kinds THEN {Op("succeed", e, 0, 0, Z) : e \in {x \in UserEvs : evs[x].kind = "ev"}} ELSE {})
   \cup (IF "fail" \in Kinds THEN {Op("fail", e, 0, 0, Z) : e \in {x \in UserEvs : evs[x].kind = "ev"}} ELSE {})
   \cup (IF "spawn" \in Kinds /\ Len(procs) < MaxProc /\ Room(2) THEN {Op("spawn", 0, 0, 0, Z)} ELSE {})
+  \cup (IF "spawnnp" \in Kinds /\ Len(procs) < MaxProc /\ Room(2) THEN {Op("spawn", 0, 1, 0, Z)} ELSE {})
   \cup (IF "interrupt" \in Kinds /\ Room(1) THEN {Op("interrupt", q, 0, 0, Z) : q \in 1..Len(procs)} ELSE {})
   \cup (IF "cond" \in Kinds /\ Room(1) THEN {Op("cond", a, 1, 0, s) : a \in {0, 1}, s \in KidSeqs} ELSE {})
   \cup (IF "condnoprobe" \in Kinds /\ Room(1) THEN {Op("cond", a, 0, 0, s) : a \in {0, 1}, s \in KidSeqs} ELSE {})
@@ -47,15 +48,15 @@ Init ==
   /\ procs = << [pe |-> 1, tgt |-> 2, alive |-> TRUE, n |-> 0, catch |-> 0] >>
   /\ cur = NoCur /\ run = NoRun
   /\ top = [mode |-> "top", uk |-> "none", ue |-> 0, n |-> 1]
-  /\ log = <<>> /\ script = << <<Op("spawn", 0, 0, 0, Z)>>, <<>> >> /\ res = <<>>
+  /\ log = <<>> /\ script = << <<Op("spawn", 0, 0, 0, Z)>>, <<>> >> /\ res = <<>> /\ ftab = IntTimes
 
 ProcStep == CanAct /\ \E o \in ProcOps : Do(o)
 TopStep == TopCanAct /\ \E o \in PlanOps : Do(o)
-Next == Pop \/ NextCb \/ EndStep \/ RunDry \/ StepDry \/ Uncaught \/ ProcStep \/ TopStep
+Next == (Pop \/ NextCb \/ EndStep \/ RunDry \/ StepDry \/ Uncaught \/ ProcStep \/ TopStep) /\ UNCHANGED ftab
 Spec == Init /\ [][Next]_kvars
 
 Done == TopCanAct /\ run.p = 0 /\ top.n >= 2 /\ (top.n = MaxPlan \/ agenda = {})
-Emit == Done => PrintT(<<"EMIT", ToJson([script |-> script, log |-> log])>>)
+Emit == Done => PrintT(<<"EMIT", ToJson([script |-> script, log |-> log, final |-> FinalState])>>)
 
 (* ---------------- property monitors over the observable log ---------------- *)
 \* C01: effects appear in non-decreasing time order
